@@ -1,7 +1,7 @@
 use rten_base::num::IsNaN;
 use rten_shape_inference::UnaryOp;
 use rten_tensor::prelude::*;
-use rten_tensor::{Tensor, TensorView};
+use rten_tensor::{SliceItem, Tensor, TensorView};
 use smallvec::SmallVec;
 
 use crate::buffer_pool::{AutoReturn, BufferPool};
@@ -78,10 +78,33 @@ pub fn scatter_elements<
     }
     let axis = resolve_axis(data.ndim(), axis)?;
 
+    // Dimensions in `indices` other than `axis` can be smaller than the
+    // corresponding data dimension, but not larger.
+    for d in 0..data.ndim() {
+        if d != axis && indices.size(d) > data.size(d) {
+            return Err(OpError::InvalidValue(
+                "`indices` size must be <= `data` size in non-axis dimensions",
+            ));
+        }
+    }
+
     let axis_size = data.size(axis);
     let mut output = data.to_tensor_in(pool);
 
-    for (output_lane, (update_lane, index_lane)) in output
+    // Trim the non-axis dimensions of the output to match `indices`, so that
+    // we iterate over matching 1D lanes.
+    let slice_ranges: Vec<_> = (0..data.ndim())
+        .map(|d| {
+            if d == axis {
+                SliceItem::full_range()
+            } else {
+                SliceItem::range(0, Some(indices.size(d) as isize), 1)
+            }
+        })
+        .collect();
+    let mut output_view = output.slice_mut(slice_ranges.as_slice());
+
+    for (output_lane, (update_lane, index_lane)) in output_view
         .lanes_mut(axis)
         .zip(updates.lanes(axis).zip(indices.lanes(axis)))
     {
